@@ -246,9 +246,58 @@ func (g *genCtx) path() string {
 	b := wire.Pick(g.r, poolPath)
 	g.note("path", b)
 	if g.phase3 && g.r.Chance(1, 5) {
-		return wire.Pick(g.r, []string{"/a/{*}", "/a/{*}/c", "/admin/{**}", "/{*}/b/{**}", "/info/{*}/x", "/a/{**}/c"})
+		return g.pathTemplate()
 	}
 	return g.form(b, true)
+}
+
+// pathTemplate: 1-4 segments, literal or {*}, optionally one {**} (which must be the last operator; literal
+// segments may follow it). Other shapes only in invalid mode.
+func (g *genCtx) pathTemplate() string {
+	r := g.r
+	lits := []string{"a", "b", "c", "admin", "info", "v1", "x", "a.b"}
+	n := 1 + r.Intn(4)
+	var segs []string
+	ops := 0
+	for i := 0; i < n; i++ {
+		if r.Chance(1, 2) {
+			segs = append(segs, wire.Pick(r, lits))
+		} else {
+			segs = append(segs, "{*}")
+			ops++
+		}
+	}
+	if r.Chance(1, 2) {
+		segs = append(segs, "{**}")
+		ops++
+		for r.Chance(1, 3) {
+			segs = append(segs, wire.Pick(r, lits))
+		}
+	}
+	if ops == 0 {
+		segs[r.Intn(len(segs))] = "{*}"
+	}
+	t := "/" + strings.Join(segs, "/")
+	// requests: an instance of the template and near misses of it (empty segment, one segment less / more)
+	inst := make([]string, len(segs))
+	for i, sg := range segs {
+		switch sg {
+		case "{*}":
+			inst[i] = wire.Pick(r, []string{"k", "a", "zz"})
+		case "{**}":
+			inst[i] = wire.Pick(r, []string{"m", "m/n", "m/n/o"})
+		default:
+			inst[i] = sg
+		}
+	}
+	g.note("path", "/"+strings.Join(inst, "/"))
+	if len(inst) > 1 {
+		g.note("path", "/"+strings.Join(inst[:len(inst)-1], "/"), "/"+strings.Join(inst, "/")+"/q", "/"+strings.Join(inst[1:], "/"))
+	}
+	if !g.valid && r.Chance(1, 4) {
+		t = wire.Pick(r, []string{t + "/{**}", t + "/{*}", "/{**}/{*}", t + "*", "*" + t, "/a{*}", "/{*}b", "/{x}", "/{**}/{**}", t + "/"})
+	}
+	return t
 }
 
 func (g *genCtx) sni() string {
@@ -460,50 +509,29 @@ type genOpts struct {
 func (g *genCtx) genPolicies(o genOpts) []string {
 	r := g.r
 	var lines []string
-	if o.aliases && r.Chance(1, 2) {
-		tds := [][]string{{"td1", "old-td"}, {"cluster.local", "td1"}, {"td1"}, {"td1", "old-td", "cluster.local"}, {"old-td", "*-td"}}
-		if g.valid {
-			tds = tds[:4] // mesh config validation (ValidateTrustDomain) rejects a wildcard alias
+	if o.aliases && r.Chance(2, 3) {
+		// the mesh's trust domain + 0-3 aliases, drawn from the pool the principals use and a few neighbours
+		// (`local` is a suffix of cluster.local, `td` a prefix of td1/td2: they meet the `*suffix` / `prefix*` patterns)
+		pool := []string{"cluster.local", "td1", "old-td", "td2", "local", "td", "example.org", "prod.cluster.local"}
+		for i := len(pool) - 1; i > 0; i-- {
+			j := r.Intn(i + 1)
+			pool[i], pool[j] = pool[j], pool[i]
 		}
-		lines = append(lines, "td "+wire.EncList(wire.Pick(r, tds)))
+		tds := append([]string{}, pool[:1+r.Intn(4)]...)
+		if !g.valid && r.Chance(1, 5) {
+			tds = append(tds, wire.Pick(r, []string{"*-td", "td*", "*"})) // rejected by mesh config validation (ValidateTrustDomain)
+		}
+		lines = append(lines, "td "+wire.EncList(tds))
 	}
 	if o.custom && r.Chance(1, 2) {
 		lines = append(lines, "custom "+wire.EncList(wire.Pick(r, [][]string{{"default"}, {"default", "p2"}, {"p2"}, {}, {"http:default"}, {"default", "http:p2"}}))+" "+wire.B(r.Chance(1, 3)))
 	}
-	wlLabels := []string{"app=httpbin", "version=v1"}
-	gateway := false
+	// the workload: root namespace, namespace, labels, proxy type, Gateway API name, waypoint service, flags
+	w := wlGen{root: "istio-system", ns: "foo", labels: []string{"app=httpbin", "version=v1"}, ptype: "sidecar"}
 	if o.sel {
-		wns := "foo"
-		if r.Chance(1, 6) {
-			wns = "istio-system" // a workload living in the root namespace
-		}
-		labels := append([]string{}, wlLabels...)
-		ptype := "sidecar"
-		extra := ""
-		if r.Chance(1, 3) {
-			// a Gateway API gateway: policies attach by targetRefs (or by selector)
-			gateway = true
-			labels = append(labels, "gateway.networking.k8s.io/gateway-name=gw1")
-			ptype = "router"
-			if r.Chance(1, 2) {
-				// a waypoint: per-service chains (NewBuilderForService) or the HBONE termination layer
-				// (NewWaypointTerminationBuilder); Service / ServiceEntry / GatewayClass targetRefs
-				ptype = "waypoint"
-				svc := wire.Pick(r, []string{"httpbin|foo|k8s", "httpbin|other|k8s", "ext1|foo|ext", "httpbin|foo|ext", "-", "reviews|other|k8s"})
-				extra = " " + wire.Enc(svc)
-				if svc == "-" {
-					extra = " -"
-				}
-				if r.Chance(1, 4) {
-					extra += " term"
-				}
-			}
-		} else if r.Chance(1, 6) {
-			ptype = "router" // a classic ingress gateway: selector based, like a sidecar
-		}
-		lines = append(lines, "wl istio-system "+wns+" "+wire.EncList(labels)+" "+ptype+extra)
+		w = g.genWorkload()
+		lines = append(lines, w.line())
 	}
-	_ = gateway
 	np := 1 + r.Intn(3)
 	if r.Chance(1, 6) {
 		np = 4 + r.Intn(2)
@@ -518,12 +546,17 @@ func (g *genCtx) genPolicies(o genOpts) []string {
 		case x < 52 && o.custom:
 			action = "CUSTOM"
 		}
-		ns := "foo"
-		if r.Chance(1, 4) {
-			ns = "istio-system"
+		ns := w.ns
+		switch x := r.Intn(100); {
+		case x < 22:
+			ns = w.root
+		case x < 45 && w.svc != nil:
+			ns = w.svc.ns
+		case x < 55 && o.sel:
+			ns = wire.Pick(r, []string{"other", "bar", "istio-system"})
 		}
-		if o.sel && r.Chance(1, 8) {
-			ns = "other"
+		if !g.valid && r.Chance(1, 40) {
+			action = "UNKNOWN" // action value outside the enum: ignored by updateAuthorizationPoliciesResult
 		}
 		// istio.io/dry-run: "0" = no annotation; the validator accepts ParseBool values on ALLOW/DENY only
 		dry := "0"
@@ -539,7 +572,7 @@ func (g *genCtx) genPolicies(o genOpts) []string {
 		}
 		sel := "-"
 		if o.sel && r.Chance(1, 3) {
-			sel = wire.EncList(wire.Pick(r, [][]string{{"app=httpbin"}, {"app=other"}, {"app=httpbin", "version=v1"}, {"version=v2"}}))
+			sel = wire.EncList(g.genSelector(w))
 		}
 		prov := "~"
 		if action == "CUSTOM" {
@@ -550,20 +583,23 @@ func (g *genCtx) genPolicies(o genOpts) []string {
 		}
 		pname := fmt.Sprintf("p%d", i)
 		// targetRefs (never together with a selector: the validator rejects that): ignored for sidecars, decisive
-		// for Gateway API gateways
-		refs := "-"
-		if o.sel && r.Chance(1, 4) && (sel == "-" || !g.valid) {
-			refs = wire.EncList(wire.Pick(r, [][]string{
-				{"gateway.networking.k8s.io|Gateway|gw1|"}, {"gateway.networking.k8s.io|Gateway|gw2|"},
-				{"gateway.networking.k8s.io|Gateway|gw2|", "gateway.networking.k8s.io|Gateway|gw1|"},
-				{"|Service|httpbin|"}, {"gateway.networking.k8s.io|Gateway|gw1|foo"},
-				{"|Service|httpbin|"}, {"core|Service|httpbin|"}, {"|Service|reviews|", "|Service|httpbin|"},
-				{"networking.istio.io|ServiceEntry|ext1|"}, {"networking.istio.io|ServiceEntry|httpbin|"},
-				{"gateway.networking.k8s.io|GatewayClass|istio-waypoint|"}, {"gateway.networking.k8s.io|GatewayClass|istio|"},
-				{"networking.istio.io|Service|httpbin|"}, {"|Gateway|gw1|"},
-			}))
+		// for Gateway API gateways and waypoints; `legacy` = the single spec.targetRef
+		refs, legacy := "-", ""
+		pRefs := 4
+		if w.gwName != "" {
+			pRefs = 2 // every second policy for a Gateway API workload uses targetRefs
 		}
-		lines = append(lines, fmt.Sprintf("pol %s %s %s %s %s %s %s", action, ns, pname, dry, prov, sel, refs))
+		if o.sel && r.Chance(1, pRefs) && (sel == "-" || !g.valid) {
+			l, want := g.genRefs(w, ns)
+			refs = wire.EncList(l)
+			if want != "" && r.Chance(2, 3) {
+				ns = want // the namespace the documentation asks for with this kind of reference
+			}
+			if r.Chance(1, 6) && (len(l) == 1 || !g.valid) {
+				legacy = " legacy"
+			}
+		}
+		lines = append(lines, fmt.Sprintf("pol %s %s %s %s %s %s %s%s", action, ns, pname, dry, prov, sel, refs, legacy))
 		g.customRule = action == "CUSTOM"
 		nr := 1 + r.Intn(2)
 		if action == "ALLOW" && r.Chance(1, 8) {
@@ -583,6 +619,202 @@ func (g *genCtx) genPolicies(o genOpts) []string {
 	return lines
 }
 
+// wlGen: the workload a case is generated for.
+type wlGen struct {
+	root, ns string
+	labels   []string
+	ptype    string   // sidecar | router | waypoint
+	gwName   string   // gateway.networking.k8s.io/gateway-name label ("" = not a Gateway API workload)
+	svc      *svcInfo // the service a waypoint chain is built for (NewBuilderForService)
+	term     bool     // NewWaypointTerminationBuilder
+	nosel    bool     // EnableSelectorBasedK8sGatewayPolicy off
+}
+
+func (w wlGen) line() string {
+	svc := "-"
+	if w.svc != nil {
+		reg := "ext"
+		if w.svc.k8s {
+			reg = "k8s"
+		}
+		svc = wire.Enc(w.svc.name + "|" + w.svc.objectName + "|" + w.svc.ns + "|" + reg)
+	}
+	var flags []string
+	if w.term {
+		flags = append(flags, "term")
+	}
+	if w.nosel {
+		flags = append(flags, "nosel")
+	}
+	return "wl " + w.root + " " + w.ns + " " + wire.EncList(w.labels) + " " + w.ptype + " " + svc + " " + wire.EncList(flags)
+}
+
+// policyName: the name targetRefs are compared with (ObjectName if set, else Name).
+func (v *svcInfo) policyName() string {
+	if v.objectName != "" {
+		return v.objectName
+	}
+	return v.name
+}
+
+func (g *genCtx) genWorkload() wlGen {
+	r := g.r
+	w := wlGen{root: "istio-system", ns: "foo", ptype: "sidecar"}
+	if r.Chance(1, 3) {
+		w.root = wire.Pick(r, []string{"istio-config", "mesh-root", "foo", "other"})
+	}
+	switch x := r.Intn(10); {
+	case x < 1:
+		w.ns = w.root // a workload living in the root namespace
+	case x < 3:
+		w.ns = wire.Pick(r, []string{"bar", "other"})
+	}
+	w.labels = []string{"app=" + wire.Pick(r, []string{"httpbin", "httpbin", "reviews"})}
+	if r.Chance(2, 3) {
+		w.labels = append(w.labels, "version="+wire.Pick(r, []string{"v1", "v1", "v2"}))
+	}
+	if r.Chance(1, 4) {
+		w.labels = append(w.labels, "tier=web")
+	}
+	switch x := r.Intn(100); {
+	case x < 35: // sidecar
+	case x < 45:
+		w.ptype = "router" // a classic ingress gateway: selector based, like a sidecar
+	case x < 65:
+		// a Gateway API gateway: policies attach by targetRefs, or by selector while the feature is on
+		w.ptype, w.gwName = "router", wire.Pick(r, []string{"gw1", "gw1", "gw2"})
+		w.nosel = r.Chance(1, 5)
+	default:
+		// a waypoint: per-service chains (NewBuilderForService) or the HBONE termination layer
+		w.ptype, w.gwName = "waypoint", wire.Pick(r, []string{"wp", "gw1"})
+		w.nosel = r.Chance(1, 10)
+		if !r.Chance(1, 8) {
+			name := wire.Pick(r, []string{"httpbin", "reviews"})
+			v := &svcInfo{name: name, ns: w.ns, k8s: r.Chance(3, 5)}
+			switch x := r.Intn(10); {
+			case x < 3:
+				v.ns = wire.Pick(r, []string{"other", "bar"})
+			case x < 5:
+				v.ns = w.root
+			}
+			if v.k8s {
+				if r.Chance(2, 3) {
+					v.objectName = name // a Kubernetes Service: ObjectName = Name
+				}
+			} else {
+				// a ServiceEntry service: Name = the hostname, ObjectName = the ServiceEntry's name
+				v.name, v.objectName = name+".example.com", "se-"+name
+				if r.Chance(1, 5) {
+					v.objectName = ""
+				}
+			}
+			w.svc = v
+		}
+		w.term = r.Chance(1, 5)
+	}
+	if w.gwName != "" {
+		w.labels = append(w.labels, "gateway.networking.k8s.io/gateway-name="+w.gwName)
+	}
+	return w
+}
+
+// genSelector: a subset of the workload's labels (matches), or a near miss.
+func (g *genCtx) genSelector(w wlGen) []string {
+	r := g.r
+	var own []string
+	for _, l := range w.labels {
+		if !strings.HasPrefix(l, "gateway.") {
+			own = append(own, l)
+		}
+	}
+	switch x := r.Intn(10); {
+	case x < 5:
+		k := 1 + r.Intn(len(own))
+		return append([]string{}, own[:k]...)
+	case x < 7:
+		return []string{own[len(own)-1]}
+	case x < 9:
+		return []string{wire.Pick(r, []string{"app=other", "version=v3", "app=reviews", "version=v2", "tier=db"})}
+	default:
+		return append(append([]string{}, own...), "extra=1")
+	}
+}
+
+// genRefs: targetRefs relative to the workload: one designating it (by each clause) or a near miss.
+func (g *genCtx) genRefs(w wlGen, pns string) ([]string, string) {
+	r := g.r
+	const gwG, ioG = "gateway.networking.k8s.io", "networking.istio.io"
+	ref := func(group, kind, name, ns string) string { return group + "|" + kind + "|" + name + "|" + ns }
+	svcName, svcOther := "httpbin", "reviews"
+	if w.svc != nil {
+		svcName, svcOther = w.svc.policyName(), w.svc.name
+	}
+	gw := w.gwName
+	if gw == "" {
+		gw = "gw1"
+	}
+	want := ""
+	svcNS := w.ns
+	if w.svc != nil {
+		svcNS = w.svc.ns
+	}
+	// weights: the kind that fits the workload comes more often
+	wGW, wSvc, wSE, wGC := 30, 10, 10, 10
+	if w.ptype == "waypoint" {
+		wGW, wGC = 12, 18
+		if w.svc != nil && w.svc.k8s {
+			wSvc, wSE = 40, 10
+		} else if w.svc != nil {
+			wSvc, wSE = 10, 40
+		}
+	}
+	one := func() string {
+		x := r.Intn(wGW + wSvc + wSE + wGC + 8)
+		near := r.Chance(1, 5) // a near miss of the same kind
+		switch {
+		case x < wGW:
+			want = w.ns
+			if near {
+				return ref(gwG, "Gateway", wire.Pick(r, []string{"gw2", "wp", "gw1"}), "")
+			}
+			return ref(gwG, "Gateway", gw, "")
+		case x < wGW+wSvc:
+			want = svcNS
+			if near {
+				return ref("", "Service", wire.Pick(r, []string{svcOther, "reviews", "httpbin", "se-httpbin"}), "")
+			}
+			return ref(wire.Pick(r, []string{"", "", "core"}), "Service", svcName, "")
+		case x < wGW+wSvc+wSE:
+			want = svcNS
+			if near {
+				return ref(ioG, "ServiceEntry", wire.Pick(r, []string{svcOther, "se-reviews", "httpbin"}), "")
+			}
+			return ref(ioG, "ServiceEntry", svcName, "")
+		case x < wGW+wSvc+wSE+wGC:
+			want = w.root
+			if near {
+				return ref(gwG, "GatewayClass", wire.Pick(r, []string{"istio", "istio-waypoint2"}), "")
+			}
+			return ref(gwG, "GatewayClass", "istio-waypoint", "")
+		default:
+			want = w.ns
+			if g.valid {
+				return ref(gwG, "Gateway", gw, "")
+			}
+			// rejected by validation: a targetRef namespace (own / foreign), wrong group for the kind, unknown kind
+			return wire.Pick(r, []string{ref(gwG, "Gateway", gw, w.ns), ref(gwG, "Gateway", gw, "other"), ref(gwG, "Gateway", gw, pns),
+				ref(ioG, "Service", svcName, ""), ref("", "Gateway", gw, ""), ref("", "ServiceEntry", svcName, ""), ref(gwG, "HTTPRoute", gw, ""),
+				ref("", "Service", svcName, "other"), ref(gwG, "GatewayClass", "istio-waypoint", "other")})
+		}
+	}
+	out := []string{one()}
+	first := want
+	for r.Chance(1, 5) && len(out) < 3 {
+		out = append(out, one())
+	}
+	return out, first
+}
+
 func gen(stream string, seed uint64, n int, outp string) {
 	out := wire.Create(outp)
 	defer out.Close()
@@ -591,7 +823,7 @@ func gen(stream string, seed uint64, n int, outp string) {
 	for c := 0; c < n; c++ {
 		r := root.Fork()
 		g := &genCtx{r: r, out: out, used: map[string][]string{}}
-		o := genOpts{audit: true, dryRun: true, sel: r.Chance(1, 3), custom: r.Chance(1, 2)}
+		o := genOpts{audit: true, dryRun: true, sel: r.Chance(1, 2), custom: r.Chance(1, 2)}
 		switch stream {
 		case "compile":
 			o.valid = r.Chance(1, 2)
@@ -599,7 +831,7 @@ func gen(stream string, seed uint64, n int, outp string) {
 			o.phase3 = r.Chance(1, 3)
 		case "requests", "tcp":
 			o.valid = true
-			o.aliases = r.Chance(1, 3)
+			o.aliases = r.Chance(1, 2)
 			o.phase3 = r.Chance(1, 3)
 		}
 		g.valid, g.phase3 = o.valid, o.phase3
